@@ -64,19 +64,21 @@ class Node:
         """
 
         uuid = UUID(bytes=proto_object.uuid)
-        node = None
         if ir is not None:
+            # Every node is defined exactly once in a file, so a UUID that
+            # already names a decoded node is an error whatever its class
+            # (reusing a cached node of the same class would move it out of
+            # the parent it was decoded under).
             cached_node = ir.get_by_uuid(uuid)
-            if isinstance(cached_node, cls):
-                node = cached_node
-            elif cached_node is not None:
+            if cached_node is not None:
                 raise DeserializationError(
                     "got %s for UUID %s but expected %s"
                     % (type(cached_node).__name__, uuid, cls.__name__)
+                    if not isinstance(cached_node, cls)
+                    else "UUID %s is defined more than once (%s)"
+                    % (uuid, cls.__name__)
                 )
-        if node is None:
-            node = cls._decode_protobuf(proto_object, uuid, ir)
-        return node
+        return cls._decode_protobuf(proto_object, uuid, ir)
 
     def _to_protobuf(self) -> Message:
         """Get a Protobuf representation of ``self``.
